@@ -120,6 +120,7 @@ OPEN = {"(": ")", "{": "}", "[": "]"}
 
 
 def tokenize(text):
+    text = re.sub(r"::\s+<", "::<", text)       # a turbofish assembled from interpolated pieces is the same tokens
     return [t for t in re.findall(r"[A-Za-z_][A-Za-z_0-9]*|\d[\w.]*|::<|::|->|=>|\|\||&&|[(){}\[\],;&*|=<>!?.:\-+#\"']|\S", text)]
 
 
